@@ -58,6 +58,8 @@ def cases():
         out.append(('rr-udf-' + sz, c, [['add_big', {'size': sz, 'iso_path': '/BIG.;1', 'rr_name': 'big', 'udf_path': '/big'}]]))
     c = ops.mk(3, udf=True)
     out.append(('udf-only-4g', c, [['add_big', {'size': '4g+2049', 'udf_path': '/big'}], ['add_small', {'udf_path': '/a'}]]))
+    out.append(('udf-only-2lim+5', c, [['add_small', {'udf_path': '/a'}], ['add_big', {'size': '2lim+5', 'udf_path': '/big'}], ['add_small', {'udf_path': '/z'}]]))
+    out.append(('udf-only-link', c, [['add_big', {'size': 'lim+1', 'udf_path': '/big'}], ['add_hard_link', {'udf_old_path': '/big', 'udf_new_path': '/big2'}]]))
     out.append(('add-rm-add', ops.mk(3, joliet=3), [['add_big', {'size': '4g+2049', 'iso_path': '/BIG.;1', 'joliet_path': '/big'}],
                                                     ['rm_file', {'iso_path': '/BIG.;1'}], ['add_small', {'iso_path': '/A.;1', 'joliet_path': '/a'}]]))
     out.append(('link', ops.mk(3, joliet=3), [['add_big', {'size': 'lim+1', 'iso_path': '/BIG.;1'}],
@@ -104,7 +106,10 @@ def run_case(name, cfg, oplist):
                     del expect[k]
             elif op == 'add_hard_link':
                 iso.add_hard_link(**kw)
-                expect[('joliet', kw['joliet_new_path'])] = expect[('iso', kw['iso_old_path'])]
+                if 'udf_new_path' in kw:
+                    expect[('udf', kw['udf_new_path'])] = expect[('udf', kw['udf_old_path'])]
+                else:
+                    expect[('joliet', kw['joliet_new_path'])] = expect[('iso', kw['iso_old_path'])]
         except env.InvalidInput as e:
             if cfg.get('level', 1) < 3 and op == 'add_big':
                 return viols      # documented: files >= 4 GiB need interchange level 3
